@@ -32,15 +32,15 @@ META = {
 
 
 def run(rep):
-    C11.anchor_selection(rep, "O5.1")
+    rep.run(C11.anchor_selection, "O5.1")
     rep.alias = {"O11.4": "O5.1"}
-    C11.consistency(rep)
+    rep.run(C11.consistency)
     rep.alias = {"O6.4": "O5.2", "O6.5": "O5.2"}
-    C06.fallback_and_dispatch(rep)
-    _comp_fallback(rep)
-    C06.component_aware(rep)
+    rep.run(C06.fallback_and_dispatch)
+    rep.run(_comp_fallback)
+    rep.run(C06.component_aware)
     rep.alias = {}
-    repeated(rep)
+    rep.run(repeated)
 
 
 def _comp_fallback(rep):
